@@ -84,11 +84,32 @@ func selectPatterns(body, v string, others []string) []string {
 		if len(n.kids) > 0 && n.kids[0].kids == nil && (n.kids[0].atom == "forall" || n.kids[0].atom == "exists") {
 			return // do not look into nested quantifiers
 		}
-		if len(n.kids) == 3 && n.kids[0].kids == nil && (n.kids[0].atom == "select" || n.kids[0].atom == "sat") && n.kids[2].kids == nil && n.kids[2].atom == v {
+		isIdx := func(k *sx) bool {
+			if k.kids == nil {
+				return k.atom == v
+			}
+			// (+ T v) / (+ v T) with T free of v: offset-relative index of a slice element
+			if len(k.kids) == 3 && k.kids[0].kids == nil && k.kids[0].atom == "+" {
+				a, b := k.kids[1], k.kids[2]
+				if a.kids == nil && a.atom == v && !b.mentions(v) {
+					return true
+				}
+				if b.kids == nil && b.atom == v && !a.mentions(v) {
+					return true
+				}
+			}
+			return false
+		}
+		if len(n.kids) == 3 && n.kids[0].kids == nil && (n.kids[0].atom == "select" || n.kids[0].atom == "sat") && isIdx(n.kids[2]) {
 			ok := !n.kids[1].mentions(v)
 			for _, o := range others {
 				if n.kids[1].mentions(o) {
 					ok = false
+				}
+			}
+			for _, bad := range []string{"ite", "and", "or", "not", "=>", "=", "<", "<=", "forall", "exists"} {
+				if n.mentionsOp(bad) {
+					ok = false // interpreted boolean structure is not allowed inside a pattern
 				}
 			}
 			if ok {
@@ -105,4 +126,20 @@ func selectPatterns(body, v string, others []string) []string {
 	}
 	walk(root, false)
 	return out
+}
+
+
+func (n *sx) mentionsOp(op string) bool {
+	if n.kids == nil {
+		return false
+	}
+	if len(n.kids) > 0 && n.kids[0].kids == nil && n.kids[0].atom == op {
+		return true
+	}
+	for _, k := range n.kids {
+		if k.mentionsOp(op) {
+			return true
+		}
+	}
+	return false
 }
